@@ -577,6 +577,10 @@ def run_case(ctx, params):
     # (a class-level memo of "registered bases" would leak between functions)
     if n >= 2 and params['root_mode'] == 'reg' and raiser is None:
         partial_registration(ctx, m, spec, case, tag, lv, style)
+        # dump functions over the same classes with other registrations,
+        # before and after the fully registered one below
+        first_partial = params.get('toplevel', 0) % 2 == 0
+        partial_dump(ctx, m, spec, case, tag, lv, first_partial)
 
     # ---- dump ----------------------------------------------------------------
     for doc_type, plain, pos in docs:
@@ -639,6 +643,9 @@ def run_case(ctx, params):
                 'dump of %s gives %r, expected %r (%s)' % (
                     pos, short(back), short(exp), tag), case)
         ctx.case([tag, pos, 'dump'], nt)
+    if n >= 2 and params['root_mode'] == 'reg' and raiser is None:
+        partial_dump(ctx, m, spec, case, tag, lv, not first_partial)
+        partial_dump(ctx, m, spec, case, tag, lv, first_partial)
     if len(ctx.samples) < 3:
         ctx.sample({'model': tag, 'document': render_plain(tl, style)[:300],
                     'expected_savorize_calls_top_level_object':
@@ -712,6 +719,42 @@ def partial_registration(ctx, m, spec, case, tag, lv, style):
                             t2), case)
         check_trace(ctx, m, spec, case, 'load', constructed, t2, un)
         ctx.case([tag, round_, 'load'], True)
+
+
+def partial_dump(ctx, m, spec, case, tag, lv, partial):
+    """Dump objects of the chain through a dump function that registers all
+    classes but K1 (partial) or all of them: which hooks run depends on the
+    function used for this dump only, whatever other dump functions over the
+    same classes did before."""
+    unreg = {'K1'} if partial else set()
+    names = [c['name'] for c in spec['classes']
+             if c.get('registered', True) and c['name'] not in unreg]
+    lv2 = [l for l in lv if l >= 2]
+    if not lv2:
+        return
+    b = Builder(spec, unreg=unreg)
+    b.uid = 7000 if partial else 8000
+    plain = [b.k_plain(l) for l in lv2]
+    t2 = '%s %s-registration-dump' % (tag, 'partial' if partial else 'full')
+    try:
+        objs = build_value(m, plain, b.want)
+        dumps = m.dumps_fn(order=names)
+    except Exception as e:
+        ctx.note('partial dump: %r' % (e,))
+        return
+    m.reset()
+    try:
+        dumps(objs)
+    except Exception as e:
+        ctx.violation('C10 dumps-raised %s' % type(e).__name__,
+                      '%s (%s)' % (str(e)[:300], t2), case)
+        return
+    ctx.count('dumps')
+    ctx.count('partial_registration_dumps')
+    uids = {}
+    collect_uids(plain, b.want, uids)
+    check_trace(ctx, m, spec, case, 'dump', dict(uids), t2, unreg)
+    ctx.case([tag, 'partial-dump', partial], True)
 
 
 def same_plain(a, b):
